@@ -1,16 +1,27 @@
 #!/bin/bash
-# Applies a seeded change to /repo, runs the given checks (default: the property named in
-# meta.json) at the quick tier, prints which fired, and restores /repo.
+# Applies a seeded change to a scratch worktree of /repo (outside /repo and /verif), runs the
+# given checks (default: the property named in meta.json) against that worktree, prints which
+# fired, and removes the worktree. /repo itself is not touched, so this can run beside other
+# checks. With MUTANT_INPLACE=1 the change is applied to /repo itself and undone afterwards.
 #   tools/mutant.sh seeded/<id> [tier] [check ids...]
 cd "$(dirname "$0")/.."
 DIR="$1"; TIER="${2:-quick}"; shift; shift
 [ -f "$DIR/patch.diff" ] || { echo "no $DIR/patch.diff"; exit 2; }
-[ -z "$(git -C /repo status --porcelain)" ] || { echo "/repo is not clean"; exit 2; }
 IDS="$@"
 [ -z "$IDS" ] && IDS=$(python3 -c "import json,sys; print(json.load(open('$DIR/meta.json'))['property'])")
-git -C /repo apply "$PWD/$DIR/patch.diff" || { echo "patch does not apply"; exit 2; }
-trap 'git -C /repo checkout -- . ; git -C /repo clean -fdq' EXIT
-( cd /repo && GOFLAGS=-mod=mod GOPROXY=off go build ./... ) || { echo "RESULT $DIR build-failed"; exit 2; }
+if [ "${MUTANT_INPLACE:-0}" = "1" ]; then
+  [ -z "$(git -C /repo status --porcelain)" ] || { echo "/repo is not clean"; exit 2; }
+  git -C /repo apply "$PWD/$DIR/patch.diff" || { echo "patch does not apply"; exit 2; }
+  trap 'git -C /repo checkout -- . ; git -C /repo clean -fdq' EXIT
+  WT=/repo
+else
+  WT="/tmp/mut-$(basename $DIR)-$$"
+  git -C /repo worktree add -q --detach "$WT" HEAD || exit 2
+  trap 'git -C /repo worktree remove --force "$WT"; rm -rf "/tmp/mutout-$$" "bin/alt-$(echo "$WT" | tr / _)"' EXIT
+  git -C "$WT" apply "$PWD/$DIR/patch.diff" || { echo "patch does not apply"; exit 2; }
+  export VERIF_REPO="$WT" VERIF_OUT="/tmp/mutout-$$"; mkdir -p "$VERIF_OUT"
+fi
+( cd "$WT" && GOFLAGS=-mod=mod GOPROXY=off GOTOOLCHAIN=local go build ./... ) || { echo "RESULT $DIR build-failed"; exit 2; }
 for id in $IDS; do
   out=$(./check $id $TIER 2>&1); rc=$?
   sig=$(echo "$out" | grep -m3 "signature:" | sed 's/.*signature: //' | tr '\n' ';' | cut -c1-300)
